@@ -398,3 +398,24 @@ func StarProbes(t universe.Affine) []Operand {
 	}
 	return out
 }
+
+// Lattice4 returns the 4×4-lattice alphabet used by the thorough tiers: every
+// simple polygon with ≤4 vertices, every segment and every 3-vertex path with
+// distinct end points (one direction), as operands.
+func Lattice4(t universe.Affine) []Operand {
+	var out []Operand
+	for _, p := range universe.SimplePolygons(4, 4) {
+		out = append(out, mkOp(t.Polygon(p).AsGeometry(), "poly4"))
+	}
+	for _, s := range universe.Paths(4, 2) {
+		if lexLess(s[0], s[1]) {
+			out = append(out, mkOp(t.Line(s).AsGeometry(), "seg4"))
+		}
+	}
+	for i, s := range universe.Paths(4, 3) {
+		if len(s) == 3 && lexLess(s[0], s[2]) && i%3 == 0 {
+			out = append(out, mkOp(t.Line(s).AsGeometry(), "path4"))
+		}
+	}
+	return out
+}
